@@ -18,6 +18,7 @@
 package parse
 
 import (
+	"encoding/json"
 	"errors"
 	"fmt"
 	"strconv"
@@ -347,7 +348,15 @@ func (p *flagParser) parseStringDQuote() (string, error) {
 	}
 
 	p.input = in[i+1:]
-	return strconv.Unquote(in[:i+1])
+	s, err := strconv.Unquote(in[:i+1])
+	if err != nil {
+		// JSON escapes unknown to Go string literals: \/ and surrogate pairs
+		var js string
+		if jsErr := json.Unmarshal([]byte(in[:i+1]), &js); jsErr == nil {
+			return js, nil
+		}
+	}
+	return s, err
 }
 
 func (p *flagParser) parseStringSQuote() (string, error) {
